@@ -128,8 +128,15 @@ class Check:
             elif r < 0.65:
                 lat, lon, h = self._gen_place(rnd)
                 ops.append({'op': 'field', 'i': i, 'date': self._gen_date(rnd, ('float', 'date', 'keep', 'keep', 'omit', 'int')), 'lat': lat, 'lon': lon, 'h': h})
-            elif r < 0.75:
+                if rnd.random() < 0.12:
+                    ops[-1]['h_omit'] = True
+            elif r < 0.72:
                 ops.append({'op': 'reset', 'i': i, 'date': self._gen_date(rnd, ('float', 'date', 'none'))})
+            elif r < 0.76:
+                # the date is moved with reset_date alone; the next query keeps the object's date
+                ops.append({'op': 'reset_date', 'i': i, 'date': self._gen_date(rnd, ('float', 'date', 'none'))})
+                lat, lon, h = self._gen_place(rnd)
+                ops.append({'op': 'field', 'i': i, 'date': {'kind': 'keep'}, 'lat': lat, 'lon': lon, 'h': h})
             elif r < 0.82:
                 ops.append({'op': 'read', 'i': i})
             elif r < 0.88:
@@ -286,16 +293,21 @@ class Check:
                     d = op['date']
                     w, m = inst[i], model[i]
                     lat, lon, h = op['lat'], op['lon'], op['h']
+                    pos = (lat, lon, h)
+                    if op.get('h_omit'):
+                        pos, h = (lat, lon), 0.0        # the height is left to its documented default: mean sea level
                     route = f"magnetic_field({d['kind']})"
                     stats['routes'][route] = stats['routes'].get(route, 0) + 1
+                    if op.get('h_omit'):
+                        stats['routes']['height omitted'] = stats['routes'].get('height omitted', 0) + 1
                     place_stats(lat, lon)
                     if d['kind'] == 'keep':
-                        w.magnetic_field(lat, lon, h, date=None)
+                        w.magnetic_field(*pos, date=None)
                     elif d['kind'] == 'omit':
-                        w.magnetic_field(lat, lon, h)
+                        w.magnetic_field(*pos)
                         m['date'] = dec_of(d)
                     else:
-                        w.magnetic_field(lat, lon, h, date=to_arg(d))
+                        w.magnetic_field(*pos, date=to_arg(d))
                         m['date'] = dec_of(d)
                     m['queries'] += 1
                     before = len(viol)
@@ -325,6 +337,11 @@ class Check:
                     d = op['date']
                     inst[i].reset_coefficients(to_arg(d))
                     model[i]['date'] = dec_of(d)
+                elif kind == 'reset_date':
+                    d = op['date']
+                    inst[i].reset_date(to_arg(d))           # "set date to use with the model"
+                    model[i]['date'] = dec_of(d)
+                    model[i]['expected'] = None
                 elif kind == 'read':
                     m = model[i]
                     got = inst[i].magnetic_elements
@@ -333,6 +350,20 @@ class Check:
                             if got[k] is None or not close(float(got[k]), m['expected'][k], 1.0):
                                 viol.append(v('read-changed', step, f'magnetic_elements[{k}]={got[k]} differs from the answer of the last query {m["expected"][k]:.9g}'))
                                 break
+                        if viol and viol[-1]['step'] == step:
+                            break
+                        # the vector accessor says what the elements say, and what it returns belongs to the caller
+                        for rnd_ in (0, 1):
+                            vec = inst[i].geodetic_vector
+                            exp3 = [m['expected'][k] for k in ('X', 'Y', 'Z')]
+                            if not all(close(float(a), b, 1.0) for a, b in zip(vec, exp3)):
+                                viol.append(v('vector-differs', step, f'geodetic_vector={np.asarray(vec).tolist()} but X, Y, Z of the last query are {exp3}' + (' (second read, after the caller changed the first array it was handed)' if rnd_ else ''), trigger='second-read' if rnd_ else m['frame']))
+                                break
+                            try:
+                                vec *= 0.0
+                            except Exception:       # noqa: BLE001
+                                pass
+                        stats['vector_reads'] = stats.get('vector_reads', 0) + 1
                         if viol and viol[-1]['step'] == step:
                             break
             except Exception as e:      # noqa: BLE001
